@@ -1,5 +1,5 @@
 (* paddrv — runs the extracted padding / cutting / parity model (coq/Crypto/Pad.v).  Glue only.
-   commands:  pad <bs> <hex>   unpad <bs> <hex>   pad3394 <hex>   derive <des:0|1> <n> <hex>   parity <hex>
+   commands:  pad <bs> <hex>   unpad <bs> <hex>   pad3394 <hex>   derive <des:0|1> <n> <hex>   parity <hex>   lenlax|lenstrict <keytype> <value_len>   agree <keytype> <n> <hex>
    answers:   <hex> | "." (empty) | "-" (None) *)
 open Pad_model
 
@@ -22,6 +22,12 @@ let () =
       | "unpad" -> print_endline (showo (pkcs7_unpad (nat_of_int (int_of_string w.(1))) (bytes_of_hex w.(2))))
       | "pad3394" -> print_endline (show (rfc3394_pad (bytes_of_hex w.(1))))
       | "derive" -> print_endline (showo (derive_value (w.(1) = "1") (nat_of_int (int_of_string w.(2))) (bytes_of_hex w.(3))))
+      | "lenlax" | "lenstrict" ->
+          let f = if w.(0) = "lenlax" then derive_len_lax else derive_len_strict in
+          (match f (n_of_int (int_of_string w.(1))) (n_of_int (int_of_string w.(2))) with
+           | Inl rv -> Printf.printf "rv %d\n" (int_of_n rv)
+           | Inr n -> Printf.printf "len %d\n" (int_of_n n))
+      | "agree" -> print_endline (showo (agree_value (n_of_int (int_of_string w.(1))) (n_of_int (int_of_string w.(2))) (bytes_of_hex w.(3))))
       | "parity" -> print_endline (show (odd_parity (bytes_of_hex w.(1))))
       | _ -> print_endline "?");
       flush stdout
